@@ -36,6 +36,9 @@ GENS = [
     # serial corner cases: 2^32-1, shortly before the wrap, 2^31-2
     ("wrap", "{Z1}", "{SMax, SNear, SHalf}", "<<MsgsWrap1, MsgsWrap>>", 2, None, ("quick",)),
     ("wrapfull", "{Z1}", "{SMax, SNear, SHalf}", "<<MsgsWrap, MsgsWrap>>", 2, None, ("thorough",)),
+    # the half-space boundary: SOA update RR at distance 2^31-1 / 2^31 / 2^31+1 from the zone serial, alone
+    # and with a content change in the same message, then one more message
+    ("half", "{Z1}", "HalfSers", "<<MsgsHalf, MsgsAfter>>", 2, None, ("quick", "thorough")),
     # two messages: every well-formed single-RR update, then a prerequisite probe or another update
     ("two", "{Z1}", "{S10}", "<<Setup, Msgs1u \\cup Msgs1p>>", 2, None, ("quick",)),
     ("twofull", "{Z1, Z2, Z3}", "{S10}", "<<Setup, Msgs1u \\cup Msgs1p>>", 2, None, ("thorough",)),
